@@ -17,6 +17,10 @@ Stages
      ops f.solve) vs the double build of the implementation (d.solve), bit for bit, all eight solvers, n up to 64,
      up to 300 iterations / dozens of restarts (what exact rationals cannot reach: LGMRES ring buffer wrap-around,
      BiCGStab(L) accurate updates, IDR(s) over many dimension-reduction steps); dyadic data only.
+  5. block and complex valued systems (tools/props/krylov_vt.py, harness/drv_krylov_vt.cpp): all eight solvers through
+     make_solver on static_matrix<vq::Q,2,2> (exact: model of the solver on the EXPANDED scalar system digit for digit +
+     truthfulness oracle) and on std::complex<double> (dyadic data: truthfulness oracle by exact recomputation on the
+     expanded real system, binary64 tolerance), both preconditioning sides, id / (block-)diagonal / matrix preconditioners.
 """
 import random
 from fractions import Fraction as F
@@ -24,8 +28,10 @@ from vcheck import fmt_q, fmt_vec, fmt_crs
 import gen
 from props.common import account, oracle_run
 import props.krylov_cases as kc
+import props.krylov_vt as kvt
 
-DRIVERS = ["krylov"]
+DRIVERS = ["krylov", "krylov_vt@b", "krylov_vt@c"]
+EXTRA_FLAGS = {"@b": ["-DVT_BLOCK"], "@c": ["-DVT_COMPLEX"]}
 TMO = 300   # seconds per driver shard: a diverging (mutated) solver makes the exact rationals explode
 MODEL = "krylov"
 TRUSTED_BASE = [
@@ -160,8 +166,18 @@ def float_cases(tier, seed):
     return out
 
 
+def vt_cases(tier, seed):
+    """block / complex valued systems: two lines per case (same id): the value-type line for drv_krylov_vt and the
+    expanded scalar system (written with op vt.scalar; it is a `solve` line of the scalar driver)"""
+    out = []
+    for c in kvt.cases(tier, seed):
+        out += [c.impl, c.scalar.replace(" solve ", " vt.scalar ", 1)]
+    return out
+
+
 def cases(tier, seed):
-    return float_cases(tier, seed) + exact_cases(tier, seed) + shadow_cases(tier, seed) + probe_cases(tier, seed) + double_cases(tier, seed)
+    return (float_cases(tier, seed) + exact_cases(tier, seed) + shadow_cases(tier, seed) + probe_cases(tier, seed) + double_cases(tier, seed)
+            + vt_cases(tier, seed))
 
 
 def run(ctx, cases_override=None):
@@ -236,6 +252,17 @@ def run(ctx, cases_override=None):
                 fails.append(dict(kind="counterexample", case=l.replace(" solve ", " f64 ", 1), impl=(a or "")[:3000], model=(b or "")[:3000], op="f64:" + solver, size=len(l),
                                   theorem="binary64 correspondence: double build of %s (d.solve) vs the extracted model at the binary64 Scalar instance (f.solve), bit for bit" % solver))
         ctx["stats"]["samples"].append(dict(binary64_cases=len(f64), binary64_iterations_total=iters))
+
+    # 5. block / complex valued systems
+    vimpl = {l.split(" ", 1)[0]: l for l in lines if l.split(" ", 2)[1] in ("bk.solve", "cx.solve")}
+    vscal = {l.split(" ", 1)[0]: l for l in lines if l.split(" ", 2)[1] == "vt.scalar"}
+    vcs = [kvt.VtCase(cid, "b" if l.split(" ", 2)[1] == "bk.solve" else "c", l.split(" ", 3)[2], l, vscal[cid].replace(" vt.scalar ", " solve ", 1))
+           for cid, l in vimpl.items() if cid in vscal]
+    if vcs:
+        vf = kvt.run(ctx, vcs, account, TMO)
+        for f in vf:
+            f["case_lines"] = [f["case_lines"][0], f["case_lines"][1].replace(" solve ", " vt.scalar ", 1)]
+        fails += vf
 
     # 3. double build, long double recomputation
     if dbl:
